@@ -346,7 +346,7 @@ def build(seed, n):
     for _ in range(max(2, n // 4)):
         nt = rng.choice([3, 4, 5])
         betas = sorted(rng.sample([i / 16.0 for i in range(1, 16)], nt - 1) + [1.0], reverse=True)
-        ann = DynamicalAnnealer(tau=rng.choice([5, 50]), nu=rng.choice([0.5, 2, 10]), Tmax_prior=rng.random() < 0.5)
+        ann = DynamicalAnnealer(tau=rng.choice([20, 50]), nu=rng.choice([0.5, 2, 10]), Tmax_prior=rng.random() < 0.5)
         smp = ParallelTemperedSampler(['x'], model, 1, betas=numpy.array(betas), swap_interval=1,
                                       proposals=[P.Normal(['x'])], adaptive_annealer=ann, seed=rng.randrange(1, 10 ** 6))
         smp.start_position = {'x': numpy.array([[rng.uniform(-1, 1)] for _ in range(nt)])}
@@ -410,6 +410,64 @@ def build(seed, n):
             (lambda ans, real=real, cur=cur, prop=prop: None if _close(real, _rat(ans), 1e-10) else
              'NestedTransdimensional._logpdf for states %s -> %s: real %r, translated %r' % (cur, prop, real, _rat(ans))))
 
+    # ---- the transdimensional move: real NestedTransdimensional._jump with the index jump and the choice scripted
+    class _CG:
+        def __init__(self, chosen):
+            self.chosen = chosen
+            self.requests = []
+
+        def choice(self, a, size=None, replace=True):
+            self.requests.append(([int(v) for v in a], int(size)))
+            return numpy.array(self.chosen, dtype=int)
+    for _ in range(n):
+        cur = [rng.random() < 0.5 for _ in range(K)]
+        kk = sum(cur)
+        mv = rng.choice(['same', 'birth', 'death'])
+        cand = [i for i in range(K) if (not cur[i] if mv == 'birth' else cur[i])]
+        if mv == 'same' or not cand:
+            newk, chosen = kk, []
+        else:
+            chosen = rng.sample(cand, rng.randint(1, len(cand)))
+            newk = kk + (len(chosen) if mv == 'birth' else -len(chosen))
+        fx = {nm: (rng.uniform(0.5, 3.5) if cur[i] else numpy.nan) for i, nm in enumerate(names)}
+        fx['k'] = kk
+        fx['_state'] = numpy.array(cur)
+        cg = _CG(chosen)
+        saved_rg = P.NestedTransdimensional.random_generator
+        saved_mj = mp.jump
+        P.NestedTransdimensional.random_generator = property(lambda self, cg=cg: cg)
+        mp.jump = lambda d, newk=newk: {'k': newk}
+        try:
+            out = ntp._jump(dict(fx))
+            err = None
+        except Exception as ex:      # noqa: BLE001
+            err = repr(ex)
+        finally:
+            P.NestedTransdimensional.random_generator = saved_rg
+            del mp.__dict__['jump']
+
+        def j(ans, out=None if err else out, fx=fx, cur=cur, cg=cg, err=err, newk=newk):
+            if err:
+                return 'the real _jump raised %s' % err
+            t = ans.split()
+            st = [bool(b) for b in out['_state']]
+            if int(t[0]) != int(out['k']) or [c == 'T' for c in t[1].split(',')] != st:
+                return 'proposed index/state: real %r %s, translated %s %s' % (out['k'], st, t[0], t[1])
+            reqs = [] if t[2] == '-' else [([int(v) for v in r.split(':')[0].split(';') if v != '-'], int(r.split(':')[1])) for r in [t[2]]]
+            if reqs != cg.requests:
+                return 'request made to choice(): real %s, translated %s' % (cg.requests, reqs)
+            lst = lambda tok: [] if tok == '-' else [int(v) for v in tok.split(',')]     # noqa: E731
+            born = [i for i, nm in enumerate(names) if numpy.isnan(fx[nm]) and not numpy.isnan(out[nm])]
+            killed = [i for i, nm in enumerate(names) if not numpy.isnan(fx[nm]) and numpy.isnan(out[nm])]
+            moved = [i for i, nm in enumerate(names) if cur[i] and st[i]]
+            if lst(t[3]) != born or lst(t[4]) != killed or lst(t[5]) != moved:
+                return 'born/killed/moved: real %s %s %s, translated %s %s %s' % (born, killed, moved, t[3], t[4], t[5])
+            if not all(out[names[i]] != fx[names[i]] for i in moved):
+                return 'a component active on both sides did not make an in-model jump'
+            return None
+        add('tdJump %d %d %d %s %s' % (K, kk, newk, ','.join('T' if b else 'F' for b in cur),
+                                     ','.join(str(c) for c in chosen) if chosen else '-'), j)
+
     # ---- Chain.state keys and the keys set_state reads
     ch = Chain(['x'], model, [P.Normal(['x'])], bit_generator=5)
     ch.start_position = {'x': 0.5}
@@ -462,7 +520,7 @@ KERNEL_PROPERTY = {
     'nsteps': 'C15', 'callJump': 'C15', 'jump': 'C15', 'logpdf': 'C15', 'update': 'C15', 'resetStart': 'C19',
     'chainLen': 'C08', 'getitem': 'C08', 'runGrowth': 'C06', 'sweepDue': 'C09', 'rowsViewed': 'C09',
     'sweepRow': 'C09', 'accept': 'C01', 'sweepLoop': 'C03', 'veitch': 'C13', 'vmf': 'C13',
-    'stateKeys': 'C05', 'stateReads': 'C05', 'annealLoop': 'C17', 'tdLogpdf': 'C11'}
+    'stateKeys': 'C05', 'stateReads': 'C05', 'annealLoop': 'C17', 'tdLogpdf': 'C11', 'tdJump': 'C10'}
 
 
 def run(seed, n, prop=None):
